@@ -13,11 +13,11 @@ Section Floor.
 Variable lo : Z -> Z.
 Hypothesis lo_range : forall d, 0 <= lo d <= 1.
 
-Definition AV (a : Asset) : Prop := asset_valid a = true /\ lo (a_denom a) <= a_tokens a.
+Definition AV (a : Asset) : Prop := asset_valid a = true /\ lo (a_denom a) <= a_tokens a /\ a_denom a <> BOND_DENOM.
 Definition J (s : State) : Prop := kall (fun k a => k = [a_denom a] /\ AV a) (assets s).
 
 (* field updates that do not touch the governed parameters *)
-Lemma AV_tokens a v : AV a -> lo (a_denom a) <= v -> AV (set_a_tokens v a).  Proof. intros [H _] Hv; split; [exact H | exact Hv]. Qed.
+Lemma AV_tokens a v : AV a -> lo (a_denom a) <= v -> AV (set_a_tokens v a).  Proof. intros (H & _ & Hb) Hv; split; [exact H | split; [exact Hv | exact Hb]]. Qed.
 Lemma AV_vshares a v : AV a -> AV (set_a_vshares v a). Proof. exact (fun H => H). Qed.
 Lemma AV_init a v : AV a -> AV (set_a_init v a).       Proof. exact (fun H => H). Qed.
 Lemma AV_last a v : AV a -> AV (set_a_last v a).       Proof. exact (fun H => H). Qed.
@@ -110,8 +110,8 @@ Proof. intros Ha; unfold clear_dust_delegation; inv_auto. Qed.
 
 (* a write of an asset derived from valid in-memory copies: parameters by conversion, the total by arithmetic *)
 Ltac av_split :=
-  repeat match goal with H : AV _ |- _ => destruct H as [? ?] end;
-  split; [assumption | cbn in *; repeat match goal with |- context[lo ?d] => lazymatch goal with H : 0 <= lo d <= 1 |- _ => fail | _ => pose proof (lo_range d) end end; try lia].
+  repeat match goal with H : AV _ |- _ => destruct H as (? & ? & ?) end;
+  split; [assumption | split; [|cbn in *; assumption]; cbn in *; repeat match goal with |- context[lo ?d] => lazymatch goal with H : 0 <= lo d <= 1 |- _ => fail | _ => pose proof (lo_range d) end end; try lia].
 Ltac av := lazymatch goal with |- inv J (set_asset _) => apply inv_set_asset; av_split end.
 
 Lemma dtrunc_nonneg x : 0 <= x -> 0 <= dtrunc x.
@@ -211,11 +211,11 @@ Definition params_ok (na : Asset) : Prop :=
   0 <= a_take na /\ a_take na < ONE /\ 0 < a_rate na /\ 0 <= a_interval na.
 
 Lemma AV_intro a : 0 <= a_take a -> a_take a < ONE -> a_wmin a <= a_weight a -> a_weight a <= a_wmax a ->
-  0 < a_rate a -> 0 <= a_interval a -> lo (a_denom a) <= a_tokens a -> AV a.
-Proof. unfold AV, asset_valid; intros; split; [repeat (apply andb_true_intro; split); lia | assumption]. Qed.
+  0 < a_rate a -> 0 <= a_interval a -> lo (a_denom a) <= a_tokens a -> a_denom a <> BOND_DENOM -> AV a.
+Proof. unfold AV, asset_valid; intros; split; [repeat (apply andb_true_intro; split); lia | split; assumption]. Qed.
 Lemma AV_elim a : AV a -> 0 <= a_take a /\ a_take a < ONE /\ a_wmin a <= a_weight a /\ a_weight a <= a_wmax a /\
-  0 < a_rate a /\ 0 <= a_interval a /\ lo (a_denom a) <= a_tokens a.
-Proof. unfold AV, asset_valid; intros [H Ht]; repeat (apply andb_prop in H; destruct H as [H ?]); lia. Qed.
+  0 < a_rate a /\ 0 <= a_interval a /\ lo (a_denom a) <= a_tokens a /\ a_denom a <> BOND_DENOM.
+Proof. unfold AV, asset_valid; intros (H & Ht & Hb); repeat (apply andb_prop in H; destruct H as [H ?]); repeat split; try lia; exact Hb. Qed.
 
 Lemma inv_update_alliance_asset na : params_ok na -> inv J (update_alliance_asset na).
 Proof.
@@ -361,7 +361,7 @@ Proof.
   destruct (rt <=? 0) eqn:E3; [inv_auto|].
   destruct (m_interval m <? 0) eqn:E4; [inv_auto|].
   destruct (negb (m_auth m =? AUTHORITY)); [inv_auto|].
-  destruct (m_denom m =? BOND_DENOM); [inv_auto|].
+  destruct (m_denom m =? BOND_DENOM) eqn:Eb; [inv_auto|]. apply Z.eqb_neq in Eb.
   read_asset; [inv_auto|].
   apply inv_bind; [inv_auto|]; intros t. apply inv_bind; [inv_auto|]; intros dl.
   apply inv_set_asset. cbn in Et. apply orb_false_elim in E2; destruct E2. apply orb_false_elim in Et; destruct Et.
@@ -448,7 +448,9 @@ Proof.
 Qed.
 
 Lemma J_floor s d a : J s -> kget (assets s) [d] = Some a -> lo d <= a_tokens a.
-Proof. intros Hs E. pose proof (J_get _ _ _ Hs E) as [_ H]. rewrite (J_get_denom _ _ _ Hs E) in H. exact H. Qed.
+Proof. intros Hs E. pose proof (J_get _ _ _ Hs E) as [_ H]. rewrite (J_get_denom _ _ _ Hs E) in H. exact (proj1 H). Qed.
+Lemma J_not_bond s d a : J s -> kget (assets s) [d] = Some a -> d <> BOND_DENOM.
+Proof. intros Hs E. pose proof (J_get _ _ _ Hs E) as [_ H]. rewrite (J_get_denom _ _ _ Hs E) in H. exact (proj2 H). Qed.
 End Floor.
 
 (* ---------- the floor "1 at dn, 0 elsewhere" ---------- *)
